@@ -396,7 +396,8 @@ def _len_checked(f: FuncInfo, node: ast.AST, seq: ast.AST) -> bool:
     st = _stmt_of(f, node)
     scope = st if st is not None else f.node
     for n in [scope] + list(walk_no_nested(scope)):
-        if isinstance(n, ast.BoolOp) and isinstance(n.op, ast.And):
+        if isinstance(n, ast.BoolOp):
+            # `len(s) > k and s[k]` / `len(s) == 0 or s[0]`: an earlier operand mentions the length
             vals = list(n.values)
             for i, v in enumerate(vals):
                 if any(x is node for x in ast.walk(v)) and any(has(p) for p in vals[:i]):
@@ -420,6 +421,9 @@ for _a in ("CODE2CID", "IS_VERTICAL"):
 for _a in ("CID2UNICHR_H", "CID2UNICHR_V"):
     S(_P + "cmapdb.PyUnicodeMap.__init__", f"module.{_a}", "`module` is built by CMapDB._load_data from the library's own pickled resource, not from the document")
 S(_P + "lzw.LZWDecoder.feed", "bytes((c,))", "c ranges over range(256)")
+S(_P + "jbig2.JBIG2StreamWriter.encode_data_length", "pack('>L', value)", "value is the segment's data_length as read by unpack('>L') (or the constant 0 of the end-of-page/end-of-file segments): it fits")
+S(_P + "jbig2.JBIG2StreamWriter.encode_flags", "pack('>B', flags)", "flags is 0x80 | 0x40 | (type & 0x3F): below 256")
+S(_P + "jbig2.JBIG2StreamWriter.encode_retention_flags", "pack(flags_format, *flags)", "the format is built entry by entry with the list; each byte is an OR of at most 8 single bits plus the 3-bit count, the dword is the constant 0xE0000000, and each referred-to number was read with the same width it is written with")
 S(_P + "arcfour.Arcfour.process", "bytes((c ^ k,))", "c is a byte of the data and k an element of the permutation of 0..255 held in s: the xor is below 256")
 S(_P + "pdfdocument.PDFStandardSecurityHandler.authenticate_owner_password", "bytes((c ^ i,))", "c is a byte of an MD5 digest and i ranges over range(19, -1, -1): the xor is below 256")
 S(_P + "pdfdocument.PDFStandardSecurityHandler.compute_u", "bytes((c ^ i,))", "c is a byte of the key and i ranges over range(1, 20): the xor is below 256")
